@@ -250,7 +250,39 @@ def dropped_results_scenario():
   return n, n, viols, [dict(scenario='built object dropped by its first consumer')]
 
 
+def partial_nodes_scenario():
+  """Partial / ArgFactory nodes, with and without bound arguments: one built object per
+  Buildable instance and per build, never the configured callable itself."""
+  import functools
+  viols = []
+  n = 0
+  def bad(what, name):
+    viols.append(dict(what=what, shape=[], same=False, sig='partials', store=name, op='build'))
+  for name, mk in (('no arguments', lambda: fdl.Partial(_Res)), ('positional', lambda: fdl.Partial(_Res, 'n')),
+                   ('keyword', lambda: fdl.Partial(_Res, name='n'))):
+    n += 1
+    p1, p2 = mk(), mk()
+    cfg = fdl.Config(_combine, p1, [p1, {'k': p1}], p2)
+    (a, (b, d), c), _ = fdl.build(cfg)
+    (a2, _x, c2), _ = fdl.build(cfg)
+    if not (a is b is d['k']):
+      bad(f'Partial with {name}: references to one instance were built to different objects', name)
+    if a is c:
+      bad(f'Partial with {name}: two distinct (equal) Partial instances were built to the very same object', name)
+    if a is a2 or c is c2:
+      bad(f'Partial with {name}: two builds returned the same object for a node', name)
+    for o in (a, c):
+      if not isinstance(o, functools.partial) or o is _Res:
+        bad(f'Partial with {name}: built to {o!r}, not a functools.partial of the callable', name)
+      elif getattr(o(*([] if name != 'no arguments' else ['n'])), 'name', None) != 'n':
+        bad(f'Partial with {name}: calling the built partial does not call the configured callable', name)
+  return n, n, viols, [dict(scenario='Partial nodes with and without bound arguments')]
+
+
 def replay(case):
+  if case.get('sig') == 'partials':
+    r = partial_nodes_scenario()
+    return r[2][0]['what'] if r[2] else None
   if case.get('sig') == 'dropped':
     r = dropped_results_scenario()
     return r[2][0]['what'] if r[2] else None
@@ -275,12 +307,13 @@ def run(tier='quick', seed=0, nproc=16):
   res.append(temporaries_scenario())
   res.append(depth_scenario())
   res.append(dropped_results_scenario())
+  res.append(partial_nodes_scenario())
   return common.merge(
       res, 'layerb.prop_C02',
       rule='every DAG shape over Config/list/tuple/dict nodes with <=2 slots per node (all shapes '
            f'<= {n} nodes; 4-node Config/list shapes sampled in quick), distinct and equal-but-distinct '
            'nodes; invocation log + canonical form of the built graph vs an independent evaluation '
            'of the shape; two builds; gc stress; temporaries of a registered node type; chains; built '
-           'objects dropped by their first consumer; '
+           'objects dropped by their first consumer; Partial nodes with and without bound arguments; '
            'non-trivial = shape with at least one Buildable',
       exhaustive=(tier != 'quick'), bound=f'DAGs <= {n} nodes (+ sample of 4-node shapes)')
